@@ -5,6 +5,7 @@ import MidnightZK.Proofs.C07.ShaSpec
 import MidnightZK.Proofs.C07.Varlen
 import MidnightZK.Proofs.C07.GrainAll
 import MidnightZK.Proofs.C07.Sponge
+import MidnightZK.Model.C07.ShaVarlen
 /-!
 # C07 — hash gadgets equal their reference functions on every message
 Property theorems (helper lemmas live in `MidnightZK/Proofs/C07`).
@@ -275,6 +276,25 @@ example : ((sha256P [] []).pad [0x61]).length = 64 ∧ ((sha256P [] []).pad (Lis
     ((sha256P [] []).pad (List.replicate 56 0)).length = 128 ∧
     ((sha512P [] []).pad (List.replicate 111 0)).length = 128 ∧
     ((sha512P [] []).pad (List.replicate 112 0)).length = 256 := by decide +kernel
+
+/-- **varlen_select_spec (SHA-256), partial.** `sha256_varlen` (`final_block_len`, `merge_chunks`,
+`insert_in_array`, `compute_padding`, the conditional-update loop), run on cells that carry their
+origin (payload position / filler / constant `0x00` / constant `0x80` / length byte): for every buffer
+size `MAX_LEN ∈ {64, 128, 192, 256}` and EVERY actual length `0 ≤ len ≤ MAX_LEN`, the blocks handed
+to the compression function are exactly the 64-byte blocks of the FIPS padding
+`payload ‖ 0x80 ‖ 0…0 ‖ len₆₄` — no filler cell is ever compressed, each payload cell exactly once and
+in order. The selection code only moves cells (it never computes on their values), so the tagged run
+determines its behaviour on all byte contents. *Partial*: exhaustive for these four sizes (kernel
+evaluation), not an induction over `MAX_LEN`; the compression rounds are not part of this statement
+(digest correspondence covers them). -/
+theorem sha256_varlen_select_spec_partial :
+    [64, 128, 192, 256].all (fun M => (List.range (M + 1)).all (fun len => varlenStructOk M len)) = true := by
+  decide +kernel
+
+/-- The check is not vacuous: it fails when the extra-block threshold is off by one (a `len` of 56
+bytes needs the extra block). -/
+example : (finalBlockLen 55).2 = false ∧ (finalBlockLen 56).2 = true ∧ (finalBlockLen 64).1 = 64 ∧
+    (finalBlockLen 0) = (0, false) := by decide
 
 /-- **spread_sum_even_odd.** The Maj / Σ₀ / Σ₁ / σ₀ / σ₁ gates of the SHA chips all have the form
 `~X + ~Y + ~Z = ~evn + 2·~odd` with `evn`, `odd` range-checked through the plain-spreaded table (so
